@@ -18,6 +18,9 @@ use std::sync::OnceLock;
 pub enum HeaderCase {
     Desc(u8),
     Single { width: u8, value: u64 },
+    /// window descriptor AND a Frame_Content_Size field (not single-segment): the window is the descriptor's, whatever
+    /// the content size says
+    DescFcs { desc: u8, width: u8, value: u64 },
 }
 
 #[derive(Clone, Copy, Debug, PartialEq, Serialize, Deserialize)]
@@ -82,6 +85,12 @@ fn header_cases() -> Vec<HeaderCase> {
     for value in [1024u64, DEFAULT, DEFAULT + 1, 1 << 32, WINDOW_MAX - 1, WINDOW_MAX, WINDOW_MAX + 1, 1 << 62, u64::MAX] {
         v.push(HeaderCase::Single { width: 8, value });
     }
+    // 1 KiB, 1 MiB, 128 MiB (= default), 144 MiB, 256 MiB, 1 GiB, 3.75 TiB windows with small / equal / huge content sizes
+    for desc in [0x00u8, 0x50, 0x88, 0x89, 0x90, 0xA0, 0xFF] {
+        for (width, value) in [(2u8, 256u64), (2, 261), (4, 0), (4, 1024), (4, u32::MAX as u64), (8, 5), (8, DEFAULT), (8, u64::MAX)] {
+            v.push(HeaderCase::DescFcs { desc, width, value });
+        }
+    }
     v
 }
 
@@ -138,6 +147,18 @@ pub fn header_bytes(h: HeaderCase) -> (Vec<u8>, u64) {
             f.push(0x00);
             f.push(d);
             w = window_from_descriptor(d);
+        }
+        HeaderCase::DescFcs { desc, width, value } => {
+            let flag = match width {
+                2 => 1u8,
+                4 => 2,
+                _ => 3,
+            };
+            f.push(flag << 6);
+            f.push(desc);
+            let stored = if width == 2 { value.wrapping_sub(256) } else { value };
+            f.extend_from_slice(&stored.to_le_bytes()[..width as usize]);
+            w = window_from_descriptor(desc);
         }
         HeaderCase::Single { width, value } => {
             let flag = match width {
@@ -411,7 +432,7 @@ impl Engine for C11 {
     }
 
     fn rule(&self) -> String {
-        "complete enumeration of (256 window descriptors + single-segment headers with every FCS width and boundary values) x (limit never set / 0 / 1023 / 1024 / 1025 / W-1 / W / W+1 / \
+        "complete enumeration of (256 window descriptors + single-segment headers with every FCS width and boundary values + headers carrying both a window descriptor and a content-size field) x (limit never set / 0 / 1023 / 1024 / 1025 / W-1 / W / W+1 / \
          default-1 / default / default+1 / 2^31 / MAX-1 / MAX / MAX+1 / u64::MAX) x history (first use, after a completed small-window frame, after a completed 8 MiB-window frame, after a failed \
          frame, after an over-limit rejection, after an abandoned frame) x front end (reset, init, decode_from_to auto-init, decode_all, decode_all_to_vec, StreamingDecoder::new / \
          new_with_max_window_size / new_with_decoder), inapplicable combinations removed; followed by seeded longer histories (2-6 episodes). Each case is distinct by construction (hash set of \
